@@ -285,6 +285,25 @@ def run(rep, tier, seed):
                                                        "detail": "k elements drawing one random() each see a different PRNG sequence than one expression drawing k times"})
         else:
             rep.traces += 1
+    # every occurrence of random() / randint() advances the PRNG exactly once - also with
+    # degenerate bounds; counted through the rng hook and compared with the occurrences
+    occ = ["random()", "randint(1, 6)", "randint(7, 7)", "randint(0, 0)", "randint(-2, -2)", "randint(3, 4)"]
+    ocases = []
+    for j in range(60 if big else 24):
+        k = rnd.randint(1, 5)
+        picks = [rnd.choice(occ) for _ in range(k)]
+        body = "".join(f'<rect wh="1" data-r{i}="{{{{{e}}}}}"/>' for i, e in enumerate(picks))
+        ocases.append({"k": f"c14o-{j}", "xml": f"<svg>{body}</svg>", "cfg": {"seed": j}, "n": k, "picks": picks})
+    ores = vlib.run_cases([{"k": c["k"], "xml": c["xml"], "cfg": c["cfg"], "trace": False} for c in ocases])
+    for c in ocases:
+        rr = ores[c["k"]]
+        rep.case(c["xml"])
+        n = (rr.get("ts") or {}).get("counts", {}).get("rng", 0)
+        if rr["status"] != "ok" or n != c["n"]:
+            rep.violation("rng:draw-count", {"xml": c["xml"], "cfg": c["cfg"], "occurrences": c["n"], "draws": n, "status": rr["status"],
+                                             "detail": "the PRNG must advance exactly once per random()/randint() occurrence"})
+        else:
+            rep.traces += 1
     rep.notes["rule"] = "trees enumerated by TLC (Expr.tla D1, D2, CallTrees, NestedCalls) x parenthesisation x variable bindings; malformed strings derived in the specification; rng family of Interp.tla"
     rep.notes["exhaustive"] = big
 
